@@ -48,6 +48,9 @@ def blocks(tier, seed):
             for mask in itertools.product((False, True), repeat=dim):
                 for rf in RFACT[dim]:
                     out.append({"kind": "cart1", "dim": dim, "dx": dx, "origin": org, "mask": list(mask), "rf": rf, "phase": ph, "tier": tier})
+                    if all(d == 1.0 for d in dx) and not any(org) and dim <= 2 and rf == RFACT[dim][1]:
+                        # the same box as a UnitGrid object (a subclass that code may special-case)
+                        out.append({"kind": "cart1", "dim": dim, "dx": dx, "origin": org, "mask": list(mask), "rf": rf, "phase": ph, "tier": tier, "unit": True})
     for dim in (1, 2):
         for (dx, org) in SPACINGS[dim][:2]:
             for mask in itertools.product((False, True), repeat=dim):
@@ -116,7 +119,7 @@ def centre_coord(cls, off, lo, n, dx, R):
     elif cls == "outside+":
         idx = n + n // 2
     elif cls == "outside-":
-        idx = -n + 1
+        idx = -2 * n + 1  # two periods below the box ("outside+" is one period above)
     elif cls == "near-low":
         idx = int(math.ceil(R / dx))
     elif cls == "near-high":
@@ -132,6 +135,8 @@ def cases(block):
         R = rf * max(dx)
         shape = shape_for(dx, max(RFACT[dim]) * max(dx))
         g = {"kind": "cart", "shape": shape, "dx": dx, "origin": org, "periodic": mask}
+        if block.get("unit"):
+            g["unit"] = True
         if dim == 3 and block["tier"] != "thorough":
             offs = [0.0 + ph, 0.5 + ph]
             clsf = lambda p: ["interior", "low", "outside+"] if p else ["interior", "near-high"]
@@ -310,8 +315,10 @@ def run_case(case, ctx):
     em0 = Emulsion([SphericalDroplet(np.array(c, float), R) for c, R in drops])
     field = em0.get_phasefield(grid)
     ctx.op()
+    image = field.data.tobytes()
     em = locate_droplets(field)
     ctx.op()
+    ctx.check("C01.image-unmodified", field.data.tobytes() == image, None, tags)
     ctx.check("C01.count", len(em) == len(drops), {"returned": [[list(map(float, d.position)), d.radius] for d in em], "want": len(drops)}, tags)
     Vtot = float(sum(cellvol[cov].sum() for cov in covered))
     ctx.check("C01.integral", abs(field.integral - Vtot) <= 1e-9 * Vtot, {"integral": field.integral, "covered": Vtot}, tags)
